@@ -370,6 +370,18 @@ func Run(t *testing.T, cs Case, opts bubble.StackOpts, hello []byte, oracle func
 			synctest.Wait()
 			cl.Write(h2wire.Ping(false, [8]byte{9, 9, 9}))
 			synctest.Wait()
+		case "h2-rare":
+			// one rare but legal (or cleanly refusable) HTTP/2 sequence on a connection, then a plain request and a PING
+			cl = st.Connect("victim", nil, HelloH2)
+			synctest.Wait()
+			cl.StartH2()
+			synctest.Wait()
+			H2Rare(cl, cs.K)
+			synctest.Wait()
+			cl.SendH2(101, bubble.Req{Path: "/after", Host: "localhost"})
+			synctest.Wait()
+			cl.Write(h2wire.Ping(false, [8]byte{9, 9, 9}))
+			synctest.Wait()
 		case "h2-mutation":
 			cl = st.Connect("victim", nil, HelloH2)
 			synctest.Wait()
@@ -384,7 +396,7 @@ func Run(t *testing.T, cs Case, opts bubble.StackOpts, hello []byte, oracle func
 		// let every armed timer fire (handshake timeout 10 s, http2 goaway/settings timers)
 		time.Sleep(40 * time.Second)
 		synctest.Wait()
-		if cs.Kind == "stall" || cs.Kind == "plain-http" || cs.Kind == "h2-mutation" || cs.Kind == "h2-flood" {
+		if cs.Kind == "stall" || cs.Kind == "plain-http" || cs.Kind == "h2-mutation" || cs.Kind == "h2-flood" || cs.Kind == "h2-rare" {
 			cl.Close() // the stalled client finally goes away
 			if cl.Raw != nil {
 				cl.Raw.Close()
@@ -468,3 +480,106 @@ func h2Mutation(cl *bubble.Client, k, val int) []byte {
 
 // H2FieldVariants is the number of header-field mutation variants per frame.
 func H2FieldVariants() int { return h2FieldVariants }
+
+// H2RareNames describes the sequences of case kind "h2-rare" (K indexes this list).
+var H2RareNames = []string{
+	"upload ending in an announced trailer section",
+	"upload ending in a trailer section that was not announced",
+	"upload ending in an empty trailer HEADERS frame",
+	"upload whose trailer section carries a pseudo-header field (stream error)",
+	"second SETTINGS frame in the middle of the connection, then a request",
+	"request whose priority field names its own stream (stream error)",
+	"extension frames of type 0x0a, 0x0b, 0x10 and 0xff on stream 0 and on an open stream",
+	"request whose header block is split over HEADERS and three CONTINUATION frames, one of them empty",
+	"WINDOW_UPDATE, PRIORITY and RST_STREAM for a stream that is already closed",
+	"SETTINGS{ENABLE_PUSH=0, MAX_FRAME_SIZE=2^24-1, HEADER_TABLE_SIZE=0, MAX_HEADER_LIST_SIZE=0} then a request",
+	"HEAD request, and a GET with a zero-length DATA frame carrying END_STREAM",
+	"PRIORITY frames for ten idle streams, then requests on two of them in descending-then-ascending order",
+	"request cancelled by RST_STREAM(NO_ERROR) right after its HEADERS, then the same path again",
+	"client GOAWAY(NO_ERROR) with a request in flight",
+}
+
+// H2Rare sends sequence k on an established HTTP/2 client connection.
+func H2Rare(cl *bubble.Client, k int) {
+	hdr := func(method, path string, extra ...h2wire.HF) []byte {
+		fs := append([]h2wire.HF{{Name: ":method", Value: method}, {Name: ":scheme", Value: "https"}, {Name: ":authority", Value: "localhost"}, {Name: ":path", Value: path}}, extra...)
+		return cl.Enc.Block(fs...)
+	}
+	upload := func(id uint32, announce bool, trailer []h2wire.HF) {
+		var extra []h2wire.HF
+		if announce {
+			extra = append(extra, h2wire.HF{Name: "trailer", Value: "x-sum"})
+		}
+		cl.Write(h2wire.Headers(id, hdr("POST", "/rare-upload", extra...), false, true, nil, -1))
+		cl.Write(h2wire.Data(id, []byte("payload-1"), false, -1))
+		cl.Write(h2wire.Data(id, []byte("payload-2"), false, -1))
+		cl.Write(h2wire.Headers(id, cl.Enc.Block(trailer...), true, true, nil, -1))
+	}
+	switch k {
+	case 0:
+		upload(1, true, []h2wire.HF{{Name: "x-sum", Value: "1"}})
+	case 1:
+		upload(1, false, []h2wire.HF{{Name: "x-sum", Value: "1"}, {Name: "x-other", Value: "2"}})
+	case 2:
+		upload(1, false, nil)
+	case 3:
+		upload(1, true, []h2wire.HF{{Name: ":path", Value: "/x"}, {Name: "x-sum", Value: "1"}})
+	case 4:
+		cl.SendH2(1, bubble.Req{Path: "/rare-1", Host: "localhost"})
+		synctest.Wait()
+		cl.Write(h2wire.Settings(h2wire.Setting{ID: 4, Val: 100000}, h2wire.Setting{ID: 3, Val: 7}))
+		synctest.Wait()
+		cl.Write(h2wire.WindowUpdate(0, 5))
+		cl.SendH2(3, bubble.Req{Path: "/rare-2", Host: "localhost"})
+	case 5:
+		cl.Write(h2wire.Headers(1, hdr("GET", "/rare-selfdep"), true, true, &h2wire.Prio{Dep: 1, Weight: 3}, -1))
+	case 6:
+		cl.Write(h2wire.Headers(1, hdr("POST", "/rare-open"), false, true, nil, -1))
+		for _, typ := range []byte{0x0a, 0x0b, 0x10, 0xff} {
+			cl.Write(h2wire.Append(nil, typ, 0, 0, []byte{0, 0, 1, 2, 3}))
+			cl.Write(h2wire.Append(nil, typ, 0xff, 1, nil))
+		}
+		cl.Write(h2wire.Data(1, []byte("x"), true, -1))
+	case 7:
+		blk := hdr("GET", "/rare-continuation", h2wire.HF{Name: "x-long", Value: strings.Repeat("v", 300)})
+		a, b := len(blk)/3, 2*len(blk)/3
+		cl.Write(h2wire.Headers(1, blk[:a], true, false, nil, -1))
+		cl.Write(h2wire.Continuation(1, blk[a:b], false))
+		cl.Write(h2wire.Continuation(1, nil, false))
+		cl.Write(h2wire.Continuation(1, blk[b:], true))
+	case 8:
+		cl.SendH2(1, bubble.Req{Path: "/rare-closed", Host: "localhost"})
+		synctest.Wait()
+		cl.Write(h2wire.WindowUpdate(1, 10))
+		cl.Write(h2wire.Priority(1, h2wire.Prio{Dep: 0, Weight: 9}))
+		cl.Write(h2wire.RST(1, 8))
+	case 9:
+		cl.Write(h2wire.Settings(h2wire.Setting{ID: 2, Val: 0}, h2wire.Setting{ID: 5, Val: 1<<24 - 1}, h2wire.Setting{ID: 1, Val: 0}, h2wire.Setting{ID: 6, Val: 0}))
+		synctest.Wait()
+		cl.SendH2(1, bubble.Req{Path: "/rare-settings", Host: "localhost"})
+	case 10:
+		cl.Write(h2wire.Headers(1, hdr("HEAD", "/rare-head"), true, true, nil, -1))
+		cl.Write(h2wire.Headers(3, hdr("GET", "/rare-emptydata"), false, true, nil, -1))
+		cl.Write(h2wire.Data(3, nil, true, -1))
+	case 11:
+		for i := 0; i < 10; i++ {
+			cl.Write(h2wire.Priority(uint32(1+2*i), h2wire.Prio{Dep: uint32(2 * i), Excl: i%2 == 1, Weight: uint8(20 * i)}))
+		}
+		synctest.Wait()
+		cl.SendH2(7, bubble.Req{Path: "/rare-prio-7", Host: "localhost"})
+		cl.SendH2(15, bubble.Req{Path: "/rare-prio-15", Host: "localhost"})
+	case 12:
+		cl.Write(h2wire.Headers(1, hdr("GET", "/rare-cancel"), true, true, nil, -1))
+		cl.Write(h2wire.RST(1, 0))
+		synctest.Wait()
+		cl.SendH2(3, bubble.Req{Path: "/rare-cancel", Host: "localhost"})
+	case 13:
+		cl.Write(h2wire.Headers(1, hdr("POST", "/rare-goaway"), false, true, nil, -1))
+		synctest.Wait()
+		cl.Write(h2wire.GoAway(0, 0, nil))
+		synctest.Wait()
+		cl.Write(h2wire.Data(1, []byte("x"), true, -1))
+	default:
+		panic(fmt.Sprintf("h2-rare: no sequence %d", k))
+	}
+}
